@@ -11,9 +11,15 @@ MCRoutes == {"plain", "symdir", "dots", "abs"}
 \* the output path occupied by an input of the run: gen_coords -c == -o, gen_params -f == -o (same spelling, via a symbolic
 \* link, via ./sub/../name); plain route only
 MCInoutBase == { [prog |-> "gen_params", on |-> {}], [prog |-> "gen_coords", on |-> {"split", "coords", "grid"}] }
-MCVariants == { [prog |-> b.prog, on |-> b.on, route |-> r, inout |-> "no", dev |-> "same"] : b \in MCBase, r \in MCRoutes }
-              \cup { [prog |-> b.prog, on |-> b.on, route |-> "plain", inout |-> k, dev |-> "same"] : b \in MCInoutBase, k \in {"same", "link", "dots"} }
-              \cup { [prog |-> b.prog, on |-> b.on, route |-> "plain", inout |-> "no", dev |-> "cross"] : b \in MCBase }
+MCVariants == { [prog |-> b.prog, on |-> b.on, route |-> r, inout |-> "no", dev |-> "same", env |-> "stable"] : b \in MCBase, r \in MCRoutes }
+              \cup { [prog |-> b.prog, on |-> b.on, route |-> "plain", inout |-> k, dev |-> "same", env |-> "stable"] : b \in MCInoutBase, k \in {"same", "link", "dots"} }
+              \cup { [prog |-> b.prog, on |-> b.on, route |-> "plain", inout |-> "no", dev |-> "cross", env |-> "stable"] : b \in MCBase }
+              \* one environment fault while the process is alive (staging directory removed / takes no new files, output
+              \* directory takes no new entries), no injected exception
+              \cup { [prog |-> b.prog, on |-> b.on, route |-> "plain", inout |-> "no", dev |-> "same", env |-> "faulty"] : b \in MCBase }
+\* environment faults: fresh output, existing output, existing output + backup #.1#, output path is a symbolic link
+MCEnvInits == { [out |-> FALSE, bk |-> {}, link |-> FALSE], [out |-> TRUE, bk |-> {}, link |-> FALSE],
+                [out |-> TRUE, bk |-> {1}, link |-> FALSE], [out |-> TRUE, bk |-> {}, link |-> TRUE] }
 \* temp directory on another file system: fresh output, existing output, existing output + backup #.2#
 MCDevInits == { [out |-> FALSE, bk |-> {}, link |-> FALSE], [out |-> TRUE, bk |-> {}, link |-> FALSE],
                 [out |-> TRUE, bk |-> {2}, link |-> FALSE] }
@@ -29,8 +35,8 @@ MCSameDev == {v \in MCVariants : v.dev = "same"}
 MCTargets1 == {"out"}
 MCNone == {}
 (* history extension: deferred-writer programs, first run fails (mostly inside serialisation), second run in the same process *)
-HVariants == { [prog |-> "gen_params", on |-> {}, route |-> "plain", inout |-> "no", dev |-> "same"],
-               [prog |-> "gen_coords", on |-> {}, route |-> "plain", inout |-> "no", dev |-> "same"] }
+HVariants == { [prog |-> "gen_params", on |-> {}, route |-> "plain", inout |-> "no", dev |-> "same", env |-> "stable"],
+               [prog |-> "gen_coords", on |-> {}, route |-> "plain", inout |-> "no", dev |-> "same", env |-> "stable"] }
 HInits == { [out |-> FALSE, bk |-> {}, link |-> FALSE], [out |-> TRUE, bk |-> {}, link |-> FALSE],
             [out |-> TRUE, bk |-> {1}, link |-> FALSE] }
 HCrash1 == { [stage |-> "links", when |-> "before"], [stage |-> "backmap", when |-> "after"],
